@@ -19,6 +19,27 @@ CLAIMED = {
         "is hand-modelled and tied by correspondence only.",
    tech="Coq proof (induction over strings and tables) + translator-regenerated tables + differential correspondence",
    ref="6 C02"),
+ "C05": dict(
+   text="Machine-checked theorems over the renderer model: an inline-only tag renders as indentation plus the exact "
+        "concatenation of its open tags, content and close tags for every indent/eol; an inline-only list renders "
+        "with nothing between items; in ANY tree (block-inside-inline included) every inline-only subtree, and every "
+        "run of adjacent inline-only siblings, appears contiguously in the output (induction over trees and sibling "
+        "lists, all loop states). Tied to the code by differential execution on unrestricted trees and lists, a "
+        "substring oracle fed by the extracted Coq spec, and a token-level whitespace-at-block-edges oracle.",
+   note=TB + "The statement's last clause (layout whitespace only next to the tags of whitespace-enabled elements) is "
+        "checked by the token-level oracle on the implementation, not proved in Coq (partial).",
+   tech="Coq proof by structural induction over the renderer model + differential correspondence + spec oracle",
+   ref="6 C05"),
+ "C06": dict(
+   text="Machine-checked refinement: for every validly nested tree (any depth/fan-out) and list, every indent and "
+        "every eol string, the renderer model's output equals join eol of the indented lines of the declarative "
+        "line-structure specification (runs of non-block children share a line, block children own lines, children "
+        "one level deeper, closing tag aligned); indent-shift and eol-substitution corollaries. The spec is executed "
+        "(extracted) against the implementation on bounded-exhaustive and random validly nested inputs.",
+   note=TB + "The line-structure specification (coq/Spec/Layout.v) is my reading of the Tag docstring and property text; "
+        "it is validated against the implementation on every run.",
+   tech="Coq refinement proof (loop invariant over sibling lists, structural induction on trees) + differential correspondence",
+   ref="6 C06"),
  "C07": dict(
    text="Machine-checked theorems over the statement-by-statement model of the two mutually recursive renderers: "
         "rendering any tree equals rendering it with every metadata node removed at every level, for every depth, "
